@@ -33,6 +33,9 @@ THEOREMS = [
     'Nb.C07.mat_roundtrip',
     'Nb.C07.mat_roundtrip_M_only',
     'Nb.C07.spm_save_writes_mat',
+    'Nb.C07.skeleton_agrees',
+    'Nb.C07.analyze_try_order',
+    'Nb.C07.analyze_finally_is_restore',
     'Nb.C07.nib_gzip_independent',
     'Nb.C07.repeat_identical_gz',
     'Nb.C07.plain_gzip_embeds_clock_counterexample',
@@ -186,7 +189,7 @@ def regen():
                     f'hasMat := {b(has_mat)}, sizeofHdr := {size}, singleVoxOffset := {svo}, '
                     f'codes := [{", ".join(map(str, codes))}], '
                     f'roundtrip := [{", ".join("(%d, %d)" % p for p in rt)}] }}')
-    consts = source_constants()
+    consts = source_constants() + '\n' + skeleton_source()
     src = ('/-! GENERATED by harness/props/c07.py regen() from the nibabel working tree — do not edit. -/\n'
            'namespace Nb.C07.Gen\n\n'
            '/-- per image class: what the header class says (read from the class attributes / probed by calls) -/\n'
@@ -198,7 +201,199 @@ def regen():
             'Nb.C07.Gen .mat constants (from_111 / to_111 shifts, x-flip diagonals of writer and reader) read from the '
             'AST of spm99analyze.py: mat_roundtrip, mat_roundtrip_M_only, spm_save_writes_mat re-proved over them',
             'Nb.C07.Gen gzip arguments of DeterministicGzipFile (filename= constant, mtime default and pass-through) '
-            'read from the AST of openers.py: nib_gzip_independent, repeat_identical_gz re-proved over them']
+            'read from the AST of openers.py: nib_gzip_independent, repeat_identical_gz re-proved over them',
+            'Nb.C07.Gen skeletons (ordered header mutations / I/O / restores / aliasing of self._affine / memmap copy '
+            'of the six to_file_map / to_filename methods, from the AST) equal the skeleton the step machine is written '
+            'for: skeleton_agrees, analyze_try_order, analyze_finally_is_restore']
+
+
+# ------------------------------------------------------------------ syntactic control-flow skeleton (Leg T)
+import ast
+import re
+
+NEUTRAL_CALLS = {'asanyarray', 'isinstance', 'get_data_offset', 'item', 'all', 'isnan', '_get_fileholders',
+                 'same_file_as', 'eye', 'super', 'to_xml', 'from_bytes', 'Nifti1Extensions', 'get_intent',
+                 'get_data_shape', 'reshape_dataobj'}
+AFFINE_SOURCES = {'self._affine', 'self.affine'}
+
+
+class SkeletonError(Exception):
+    pass
+
+
+def _one_line(node):
+    return re.sub(r'\s+', ' ', ast.unparse(node)).strip()
+
+
+def _call_name(c):
+    f = c.func
+    return f.attr if isinstance(f, ast.Attribute) else f.id if isinstance(f, ast.Name) else '?'
+
+
+def _neutral_expr(e):
+    for n in ast.walk(e):
+        if isinstance(n, ast.Call):
+            nm = _call_name(n)
+            if nm == 'get_data_dtype' and not n.keywords and not n.args:
+                continue
+            if nm not in NEUTRAL_CALLS:
+                return False
+        elif isinstance(n, (ast.Lambda, ast.ListComp, ast.SetComp, ast.DictComp, ast.Await, ast.Yield,
+                            ast.YieldFrom, ast.NamedExpr)):
+            return False
+    return True
+
+
+def _names(t):
+    if isinstance(t, ast.Name):
+        return [t.id]
+    if isinstance(t, (ast.Tuple, ast.List)) and all(isinstance(e, ast.Name) for e in t.elts):
+        return [e.id for e in t.elts]
+    return None
+
+
+def _base_name(t):
+    while isinstance(t, (ast.Subscript, ast.Attribute)):
+        t = t.value
+    return t.id if isinstance(t, ast.Name) else None
+
+
+def skeleton(func):
+    """ordered tokens of everything in `func` that is not a neutral local computation; statements are flattened
+    with their control context (`if(test): `, `else(test): `, `try: `, `finally: `, `with(item): `)"""
+    out = []
+
+    def block(stmts, ctx, alias):
+        for st in stmts:
+            alias = stmt(st, ctx, alias)
+        return alias
+
+    def emit(ctx, text):
+        # (region, text): region = the context up to and including the innermost try / finally / except frame,
+        # the conditions inside that region stay in front of the statement text
+        frames = re.findall(r'(?:if|else|except)\(.*?\): |try: |finally: |with: ', ctx)
+        if ''.join(frames) != ctx:
+            raise SkeletonError('context ' + ctx)
+        cut = max([i + 1 for i, f in enumerate(frames) if f in ('try: ', 'finally: ') or f.startswith('except(')] or [0])
+        out.append((''.join(frames[:cut]), ''.join(frames[cut:]) + text))
+
+    def stmt(st, ctx, alias):
+        if isinstance(st, ast.Expr) and isinstance(st.value, ast.Constant) and isinstance(st.value.value, str):
+            return alias                                          # docstring
+        if isinstance(st, (ast.Import, ast.ImportFrom, ast.Pass)):
+            return alias
+        if isinstance(st, ast.Assign):
+            if len(st.targets) != 1:
+                raise SkeletonError('chained assignment: ' + _one_line(st))
+            tgt = st.targets[0]
+            names = _names(tgt)
+            if names is not None:
+                src = _one_line(st.value)
+                if src in AFFINE_SOURCES or (isinstance(st.value, ast.Name) and st.value.id in alias):
+                    if len(names) != 1:
+                        raise SkeletonError('tuple alias: ' + _one_line(st))
+                    emit(ctx, 'ALIAS-OF-AFFINE ' + _one_line(st))
+                    return alias | {names[0]}
+                alias = alias - set(names)
+                if _neutral_expr(st.value):
+                    return alias
+                emit(ctx, _one_line(st))
+                return alias
+            base = _base_name(tgt)
+            if base is None:
+                raise SkeletonError('store into ' + _one_line(tgt))
+            pre = 'INPLACE-ON-AFFINE-ALIAS ' if (base in alias and isinstance(tgt, ast.Subscript)) else ''
+            emit(ctx, pre + _one_line(st))
+            return alias
+        if isinstance(st, ast.AugAssign):
+            base = _base_name(st.target)
+            if base is None:
+                raise SkeletonError('augmented store into ' + _one_line(st.target))
+            pre = 'INPLACE-ON-AFFINE-ALIAS ' if base in alias else ''
+            emit(ctx, pre + _one_line(st))
+            return alias
+        if isinstance(st, ast.Expr):
+            emit(ctx, _one_line(st))
+            return alias
+        if isinstance(st, ast.Return):
+            emit(ctx, _one_line(st))
+            return alias
+        if isinstance(st, ast.Raise):
+            exc = st.exc
+            emit(ctx, 'raise ' + (_call_name(exc) if isinstance(exc, ast.Call) else _one_line(exc) if exc else ''))
+            return alias
+        if isinstance(st, ast.If):
+            t = _one_line(st.test)
+            if not _neutral_expr(st.test):
+                emit(ctx, 'test ' + t)
+            a1 = block(st.body, ctx + f'if({t}): ', set(alias))
+            a2 = block(st.orelse, ctx + f'else({t}): ', set(alias))
+            return a1 | a2
+        if isinstance(st, ast.Try):
+            if st.orelse:
+                raise SkeletonError('try/else')
+            a = block(st.body, ctx + 'try: ', set(alias))
+            for h in st.handlers:
+                a |= block(h.body, ctx + f'except({_one_line(h.type) if h.type else ""}): ', set(alias))
+            return block(st.finalbody, ctx + 'finally: ', a)
+        if isinstance(st, ast.With):
+            items = ', '.join(_one_line(i) for i in st.items)
+            emit(ctx, 'with-enter ' + items)
+            a = block(st.body, ctx + 'with: ', set(alias))
+            emit(ctx, 'with-exit')
+            return a
+        raise SkeletonError(f'statement kind {type(st).__name__}: ' + _one_line(st)[:80])
+
+    block(func.body, '', set())
+    return out
+
+
+def find_func(tree, cls, name):
+    for n in ast.walk(tree):
+        if isinstance(n, ast.ClassDef) and n.name == cls:
+            for f in n.body:
+                if isinstance(f, ast.FunctionDef) and f.name == name:
+                    return f
+    raise LookupError(f'{cls}.{name}')
+
+
+TARGETS = [('Analyze', 'analyze.py', 'AnalyzeImage'), ('Nifti', 'nifti1.py', 'Nifti1Pair'),
+           ('Spm', 'spm99analyze.py', 'Spm99AnalyzeImage'), ('Mgh', 'freesurfer/mghformat.py', 'MGHImage'),
+           ('Cifti', 'cifti2/cifti2.py', 'Cifti2Image'), ('ToFilename', 'filebasedimages.py', 'FileBasedImage')]
+
+
+def all_skeletons(repo):
+    res = {}
+    for key, path, cls in TARGETS:
+        tree = ast.parse(open(os.path.join(repo, 'nibabel', path)).read())
+        res[key] = skeleton(find_func(tree, cls, 'to_filename' if key == 'ToFilename' else 'to_file_map'))
+    return res
+
+
+def lean_str(t):
+    return '"' + t.replace('\\', '\\\\').replace('"', '\\"') + '"'
+
+
+def skeleton_source():
+    """Generated Lean text: per to_file_map the ordered skeleton tokens; whether the memmap copy precedes the first
+    open-for-write"""
+    from common import REPO
+    sk = all_skeletons(REPO)
+    out = ['/-- syntactic skeletons of the `to_file_map` methods of the working tree (harness/props/c07.py::skeleton):\n'
+           '    every statement that is not a neutral local computation, in order, with its control context -/']
+    for key, toks in sk.items():
+        out.append(f'def skel{key} : List (String × String) := [\n  ' +
+                   ',\n  '.join(f'({lean_str(c)}, {lean_str(t)})' for c, t in toks) + ']')
+    for key in ('Analyze', 'Mgh'):
+        toks = sk[key]
+        copy = [i for i, (c, t) in enumerate(toks) if 'np.array(data)' in t]
+        opens = [i for i, (c, t) in enumerate(toks) if 'get_prepare_fileobj' in t]
+        ok = len(copy) == 1 and bool(opens) and copy[0] < min(opens)
+        out.append(f'def copyBeforeOpen{key} : Bool := {"true" if ok else "false"}')
+    inplace = [f'{key}: {c}{t}' for key, toks in sk.items() for c, t in toks if t.startswith('INPLACE-ON-AFFINE-ALIAS')]
+    out.append('/-- in-place stores into an array that may alias `self._affine` -/')
+    out.append('def inplaceOnAffineAlias : List String := [' + ', '.join(lean_str(t) for t in inplace) + ']')
+    return '\n'.join(out) + '\n'
 
 
 def source_constants():
